@@ -6,6 +6,10 @@
 # `control_*` harnesses are negative controls: Kani must REJECT them; the line says SUCCESS when it does.
 set -u
 cd "$(dirname "$(readlink -f "$0")")"
+# build output records absolute paths: a target directory that was built at another location (a copied tree, a removed
+# worktree) is discarded
+if [ -d target ] && [ "$(cat target/.verif-path 2>/dev/null)" != "$PWD" ]; then rm -rf target; fi
+mkdir -p target; echo "$PWD" > target/.verif-path
 export CARGO_NET_OFFLINE=true
 T="${KANI_TIMEOUT:-120}"
 J="${KANI_JOBS:-6}"
